@@ -14,7 +14,7 @@ import ZoektModel.Generated.QuerySwitches
 namespace ZoektModel.C05
 open ZoektModel.Query
 
-theorem wf_ff (q : Q) : wf false false q = true := by
+theorem wf_ff (q : Q) : wf anyBranch false q = true := by
   induction q using Q.ind with
   | hconst v => rfl
   | hand cs ih => simpa [wf, wfL_eq] using ih
@@ -48,13 +48,13 @@ theorem stripCaseScopes_preserves (ctx : List Shard) (q : Q) (s : Shard) (d : Do
 theorem evalConstants_preserves_partial (ctx : List Shard) (q : Q) (hq : hasEmptyBranch q = false)
     (s : Shard) (d : Doc) (h : InCorpus ctx s d) :
     eval (evalConstants q) ctx s d = eval q ctx s d :=
-  (evalConstantsF_pres rfl (scope_incorpus ctx) (incorpus_live ctx) _ q (by simpa [hasEmptyBranch] using hq)).2 s d h
+  (evalConstantsF_pres (branchOK_noEmpty ctx _) (scope_incorpus ctx) (incorpus_live ctx) _ q (by simpa [hasEmptyBranch] using hq)).2 s d h
 
 /-- constant folding with *any* amount of fuel preserves meaning (the fuel only bounds the recursion through `Map`) -/
 theorem evalConstantsF_preserves_partial (ctx : List Shard) (n : Nat) (q : Q) (hq : hasEmptyBranch q = false)
     (s : Shard) (d : Doc) (h : InCorpus ctx s d) :
     eval (evalConstantsF n q) ctx s d = eval q ctx s d :=
-  (evalConstantsF_pres rfl (scope_incorpus ctx) (incorpus_live ctx) n q (by simpa [hasEmptyBranch] using hq)).2 s d h
+  (evalConstantsF_pres (branchOK_noEmpty ctx _) (scope_incorpus ctx) (incorpus_live ctx) n q (by simpa [hasEmptyBranch] using hq)).2 s d h
 
 /-- **the fuel of the model's `evalConstants` is never exhausted**: any fuel above the depth of the tree (in particular
     the `size q + 1` the model and the driver use) yields the same tree, so the model computes what the unbounded Go
@@ -70,7 +70,7 @@ theorem evalConstants_fuel_stable (q : Q) (n : Nat) (hn : depth q < n) :
 theorem Simplify_preserves_partial (ctx : List Shard) (q : Q) (hq : hasEmptyBranch q = false)
     (s : Shard) (d : Doc) (h : InCorpus ctx s d) :
     eval (simplify q) ctx s d = eval q ctx s d :=
-  (simplify_pres rfl (scope_incorpus ctx) (incorpus_live ctx) q (by simpa [hasEmptyBranch] using hq)).2 s d h
+  (simplify_pres (branchOK_noEmpty ctx _) (scope_incorpus ctx) (incorpus_live ctx) q (by simpa [hasEmptyBranch] using hq)).2 s d h
 
 /-- **`Simplify` terminates at a fixpoint**: the model's loop fuel (node count + 1) is never exhausted — the result
     is a tree that `flatten` reports unchanged; each changing `flatten` step removes at least one node -/
@@ -80,33 +80,75 @@ theorem Simplify_terminates (q : Q) : (flatten (simplify q)).2 = false :=
 theorem flatten_decreases (q : Q) (h : (flatten q).2 = true) : size (flatten q).1 < size q :=
   (flatten_size q).2 h
 
+/-! ### the exact boundary of the excluded class: folding a non-exact `Branch ""` is harmless exactly for documents that
+    are on at least one (named) branch -/
+
+/-- document `d` of shard `s` is on at least one branch that its repository lists -/
+def OnNamedBranch (s : Shard) (d : Doc) : Prop :=
+  ∃ r i nm, s.repoOf d = some r ∧ i ∈ d.branches ∧ r.branches[i]? = some nm
+
+theorem containsSub_nil (x : Str) : containsSub x [] = true := by
+  cases x <;> simp [containsSub]
+
+theorem branchOK_branched (ctx : List Shard) (D : Shard → Doc → Prop) (h : ∀ s d, D s d → OnNamedBranch s d) :
+    BranchOK ctx noExactEmpty D := by
+  intro pat e hpb hp s d hd
+  have hpat : pat = [] := List.isEmpty_iff.mp hp
+  subst hpat
+  have he : e = false := by
+    cases e with
+    | false => rfl
+    | true => simp [noExactEmpty] at hpb
+  subst he
+  obtain ⟨r, i, nm, hr, hi, hnm⟩ := h s d hd
+  simp only [eval, hr, evalAtom, evalBranch]
+  have hne : (([] : Str) == HEAD) = false := by decide
+  simp only [hne, Bool.false_eq_true, if_false, List.any_eq_true]
+  exact ⟨i, hi, by simp [hnm, containsSub_nil]⟩
+
+/-- **constant folding / `Simplify` on corpora whose live documents are all on a branch**: meaning is preserved for
+    every tree that has no `Branch{Pattern: "", Exact: true}` atom — non-exact empty patterns included -/
+theorem Simplify_preserves_branched (ctx : List Shard) (hb : ∀ s d, InCorpus ctx s d → OnNamedBranch s d)
+    (q : Q) (hq : wf noExactEmpty false q = true) (s : Shard) (d : Doc) (h : InCorpus ctx s d) :
+    eval (simplify q) ctx s d = eval q ctx s d ∧ eval (evalConstants q) ctx s d = eval q ctx s d :=
+  ⟨(simplify_pres (branchOK_branched ctx _ hb) (scope_incorpus ctx) (incorpus_live ctx) q hq).2 s d h,
+   (evalConstantsF_pres (branchOK_branched ctx _ hb) (scope_incorpus ctx) (incorpus_live ctx) _ q hq).2 s d h⟩
+
+/-- … and per-shard simplification, for shards whose live documents are all on a branch -/
+theorem shard_simplify_preserves_branched (ctx : List Shard) (s : Shard) (hv : s.featureVersion ≥ 12)
+    (hb : ∀ d, s.live d = true → OnNamedBranch s d)
+    (q : Q) (hq : wf noExactEmpty true q = true) (d : Doc) (hl : s.live d = true) :
+    eval (shardSimplify s q) ctx s d = eval q ctx s d :=
+  (shardSimplify_pres ctx s (branchOK_branched ctx _ (fun s' d' hd => by obtain ⟨rfl, hl'⟩ := hd; exact hb d' hl')) hv q hq).2
+    s d ⟨rfl, hl⟩
+
 /-- **per-shard simplification against repository metadata** (`indexData.simplify`): for every shard (any mix of
     tombstoned and live repositories, format feature version ≥ 12), every tree without `type:repo` nodes (they
     never reach a shard) and without empty `Branch` patterns, and every document of a non-tombstoned repository
     of the shard -/
 theorem shard_simplify_preserves_partial (ctx : List Shard) (s : Shard) (hv : s.featureVersion ≥ 12)
-    (q : Q) (hq : wf true true q = true) (d : Doc) (hl : s.live d = true) :
+    (q : Q) (hq : wf noEmpty true q = true) (d : Doc) (hl : s.live d = true) :
     eval (shardSimplify s q) ctx s d = eval q ctx s d :=
-  (shardSimplify_pres ctx rfl s hv q hq).2 s d ⟨rfl, hl⟩
+  (shardSimplify_pres ctx s (branchOK_noEmpty ctx _) hv q hq).2 s d ⟨rfl, hl⟩
 
 /-- the shortcut in `indexData.Search`/`List`: a tree that simplifies to FALSE matches no live document -/
 theorem Const_false_shortcut (ctx : List Shard) (s : Shard) (hv : s.featureVersion ≥ 12)
-    (q : Q) (hq : wf true true q = true) (hc : shardSimplify s q = .const false)
+    (q : Q) (hq : wf noEmpty true q = true) (hc : shardSimplify s q = .const false)
     (d : Doc) (hl : s.live d = true) : eval q ctx s d = false := by
   rw [← shard_simplify_preserves_partial ctx s hv q hq d hl, hc, eval_const]
 
 /-- … and one that simplifies to TRUE matches every live document (used by `List`) -/
 theorem Const_true_shortcut (ctx : List Shard) (s : Shard) (hv : s.featureVersion ≥ 12)
-    (q : Q) (hq : wf true true q = true) (hc : shardSimplify s q = .const true)
+    (q : Q) (hq : wf noEmpty true q = true) (hc : shardSimplify s q = .const true)
     (d : Doc) (hl : s.live d = true) : eval q ctx s d = true := by
   rw [← shard_simplify_preserves_partial ctx s hv q hq d hl, hc, eval_const]
 
 /-- what a shard search evaluates — simplify against the shard, then expand — selects the documents of the
     original tree -/
 theorem search_pipeline_preserves_partial (ctx : List Shard) (s : Shard) (hv : s.featureVersion ≥ 12)
-    (q : Q) (hq : wf true true q = true) (d : Doc) (hl : s.live d = true) :
+    (q : Q) (hq : wf noEmpty true q = true) (d : Doc) (hl : s.live d = true) :
     eval (expand (shardSimplify s q)) ctx s d = eval q ctx s d := by
-  obtain ⟨w, _⟩ := shardSimplify_pres ctx rfl s hv q hq
+  obtain ⟨w, _⟩ := shardSimplify_pres ctx s (branchOK_noEmpty ctx _) hv q hq
   rw [(expand_pres (scope_nt ctx (InShard s)) _ w).2 s d ⟨rfl, hl⟩]
   exact shard_simplify_preserves_partial ctx s hv q hq d hl
 
@@ -127,7 +169,7 @@ theorem C05_checkP_expand (ctx : List Shard) (q : Q) : checkP ctx q (expand q) =
   | true => simp [expand_preserves ctx q s d ⟨hs, hd, hl⟩]
 
 theorem C05_checkPShard_partial (ctx : List Shard) (s : Shard) (hv : s.featureVersion ≥ 12)
-    (q : Q) (hq : wf true true q = true) : checkPShard ctx s q (shardSimplify s q) = true := by
+    (q : Q) (hq : wf noEmpty true q = true) : checkPShard ctx s q (shardSimplify s q) = true := by
   simp only [checkPShard, sameDocsIn, List.all_eq_true]
   intro d _
   cases hl : s.live d with
@@ -182,6 +224,18 @@ theorem evalConstants_full_false :
   revert this
   decide
 
+/-- the exact variant is false for every document of a repository without a branch named "" — here one on `main` -/
+theorem evalConstants_exact_empty_false :
+    ¬ ∀ (ctx : List Shard) (q : Q) (s : Shard) (d : Doc), InCorpus ctx s d → OnNamedBranch s d →
+        eval (evalConstants q) ctx s d = eval q ctx s d := by
+  intro h
+  let r : Repo := ⟨[97], 1, [[109]], 42, [], false⟩
+  let d : Doc := ⟨0, [0], [102], [71, 111], [], [], []⟩
+  let s : Shard := ⟨[r], [[71, 111]], 12, [d]⟩
+  have := h [s] (.branch [] true) s d ⟨by simp, by simp [s], by decide⟩ ⟨r, 0, [109], by decide, by simp [d], by decide⟩
+  revert this
+  decide
+
 /-! ### non-vacuity -/
 
 /-- a tree exercising folding under negation, a `Type` node collapsing, flattening of nested / single-child nodes -/
@@ -198,6 +252,6 @@ example : shardSimplify exShard (.and [.repo ⟨[97], [[97]]⟩, .language [71, 
 example : expand (.not (.substr [102] true false false))
     = .not (.or [.substr [102] true true false, .substr [102] true false true]) := by rfl
 example : InCorpus [exShard] exShard exDoc := ⟨by simp, by simp [exShard], by decide⟩
-example : wf true true (.and [.repo ⟨[97], [[97]]⟩, .language [67]]) = true := by decide
+example : wf noEmpty true (.and [.repo ⟨[97], [[97]]⟩, .language [67]]) = true := by decide
 
 end ZoektModel.C05
